@@ -28,6 +28,8 @@ pub fn timer_at<Item, S>(
 // Returns `Duration::default()` when `instant` is a timestamp in the past
 fn get_duration_from_instant(instant: Instant) -> Duration {
   let now = Instant::now();
+  #[cfg(feature = "verif_hooks")]
+  let now = crate::verif_hooks::now().unwrap_or(now);
   match instant > now {
     true => instant - now,
     false => Duration::default(),
